@@ -2,14 +2,24 @@
 
 package wazero
 
-// VerifC14Stdout returns a copy of what the running module has printed so far.  The C14 harness
-// calls it from its watchdog when a driver exceeds its deadline (an endless loop inside a library
-// function), so that the call that hangs can be identified from the last complete line.  The
-// buffer is being appended to by the interpreter goroutine at that moment; the copy may end in a
-// torn line, which the caller discards.
+import "io"
+
+// VerifC14Stdout returns a copy of what the running module has printed so far into the module's
+// own buffer (only meaningful when VerifC14StreamStdout was not used).
 func VerifC14Stdout(p *Module) []byte {
 	b := p.stdoutBuffer.Bytes()
 	out := make([]byte, len(b))
 	copy(out, b)
 	return out
+}
+
+// VerifC14StreamStdout makes the module write its stdout/stderr to w as it runs instead of into
+// the in-memory buffers that RunMain returns at the end.  The C14 harness needs the output of a
+// driver that never terminates (an endless loop inside a library function): an in-process
+// watchdog is not enough, because a tight loop in compiled wasm code cannot be preempted and
+// blocks the Go runtime's stop-the-world, so the process has to be killed from outside — and the
+// lines printed before the kill identify the call that hangs.  Must be called after BuildModule
+// and before RunMain.
+func VerifC14StreamStdout(p *Module, w io.Writer) {
+	p.wazeroConf = p.wazeroConf.WithStdout(w).WithStderr(w)
 }
